@@ -171,6 +171,18 @@ def prepare_ops(spec, dev, tmp):
                 a['local'] = p
             elif src == 'bytesio':
                 a['local'] = None
+            elif src == 'dir':
+                d = os.path.join(tmp, 'srcdir%d' % i)
+                os.makedirs(d)
+                a['files'] = {}
+                for k, (name, size) in enumerate(op.get('files', [])):
+                    fd = fast_pattern(seed + 2000 + i * 50 + k, size)
+                    a['files'][name] = fd
+                    with open(os.path.join(d, name), 'wb') as f:
+                        f.write(fd)
+                a['local'] = d
+                a['data'] = b''.join(a['files'].values())
+                dev.shell_scripts[('shell:mkdir ' + a['dpath']).encode('utf8')] = []
         plans[i] = op.get('plan')
         args.append(a)
 
@@ -206,7 +218,7 @@ def run(spec, mode='sync', rec=None, chooser=None, keep_session=False, **core_kw
     rr = RunResult()
     dev = build_device(spec, rec, chooser)
     tmp = tempfile.mkdtemp(prefix='scen-', dir=os.path.join(os.path.dirname(os.path.dirname(os.path.abspath(__file__))), '.work')) \
-        if any(op['api'] in ('push', 'pull') and (op.get('src') == 'path' or op.get('dest') == 'path') for op in spec['ops']) else None
+        if any(op['api'] in ('push', 'pull') and (op.get('src') in ('path', 'dir') or op.get('dest') == 'path') for op in spec['ops']) else None
     try:
         args = prepare_ops(spec, dev, tmp)
         kw = dict(core_kw)
@@ -302,7 +314,15 @@ def run_op(s, op, a, tmp, i, rr):
             kw['st_mode'] = op['st_mode']
         if 'mtime' in op:
             kw['mtime'] = op['mtime']
-        return s.call('push', local, a['dpath'], progress_callback=cbf, _info=dict(i=i), **kw)
+        cwd0 = os.getcwd()
+        if op.get('cwd') == 'inside':
+            os.chdir(a['local'])
+        elif op.get('cwd') == 'elsewhere':
+            os.chdir('/')
+        try:
+            return s.call('push', local, a['dpath'], progress_callback=cbf, _info=dict(i=i), **kw)
+        finally:
+            os.chdir(cwd0)
     raise ValueError(api)
 
 
@@ -529,7 +549,9 @@ def sync_traces(rr, spec, inert=None, only=None):
         a = rr.args[i]
         streams = [st for st in rr.dev.all_streams if getattr(st, 'op', None) == i and st.dest.rstrip(b'\0') == b'sync:']
         size = len(a['data']) if api == 'push' else (op.get('size') or 0) if api == 'pull' else 0
-        tr = [dict(ev='call', api=api, size=size, cb=bool(op.get('cb')), nfiles=1)]
+        files = a.get('files') if api == 'push' else None
+        tr = [dict(ev='call', api=api, size=size, cb=bool(op.get('cb')), nfiles=len(files) if files is not None else 1)]
+        cur_src = a.get('data', b'')
         for st in streams:
             svc = st.service
             off = 0
@@ -537,18 +559,25 @@ def sync_traces(rr, spec, inert=None, only=None):
                 if api != 'push':
                     continue
                 if r['id'] == 'SEND':
-                    want = ('%s,%d' % (a['dpath'], op.get('st_mode', 33272))).encode('utf8')
-                    tr.append(dict(ev='prx', id='SEND', specOk=(r['data'] == want)))
+                    if files is not None:
+                        pth, _, md_ = r['data'].rpartition(b',')
+                        name = pth.decode('utf8', 'replace')[len(a['dpath']) + 1:]
+                        ok = pth.decode('utf8', 'replace').startswith(a['dpath'] + '/') and name in files and md_ == str(op.get('st_mode', 33272)).encode()
+                        cur_src = files.get(name, b'')
+                        tr.append(dict(ev='prx', id='SEND', specOk=bool(ok)))
+                    else:
+                        want = ('%s,%d' % (a['dpath'], op.get('st_mode', 33272))).encode('utf8')
+                        tr.append(dict(ev='prx', id='SEND', specOk=(r['data'] == want)))
                     off = 0
                 elif r['id'] == 'DATA':
                     n = len(r['data'])
-                    tr.append(dict(ev='prx', id='DATA', n=n, off=off, match=(r['data'] == a['data'][off:off + n] and r['arg'] == n)))
+                    tr.append(dict(ev='prx', id='DATA', n=n, off=off, match=(r['data'] == cur_src[off:off + n] and r['arg'] == n)))
                     off += n
                 elif r['id'] == 'DONE':
                     mt = op.get('mtime', 0)
                     c0, c1 = clks.get(i, [0, 0])
                     ok = (r['arg'] == mt) if mt else (c0 <= r['arg'] <= (c1 if c1 is not None else c0))
-                    tr.append(dict(ev='prx', id='DONE', fsize=len(a['data']), mtimeOk=bool(ok)))
+                    tr.append(dict(ev='prx', id='DONE', fsize=len(cur_src), mtimeOk=bool(ok)))
                 else:
                     tr.append(dict(ev='prx', id=r['id']))
             for w in svc.out:
@@ -579,6 +608,6 @@ def sync_traces(rr, spec, inert=None, only=None):
             rb = reason.encode('latin1')
             forms = [reason, rb.decode('utf8', 'backslashreplace'), repr(rb)[2:-1], rb.decode('utf8', 'replace')]
             tr.append(dict(ev='exc', api=api, cls=o.exc_name, reasonIn=any(f in str(o.exc) for f in forms) if reason else True,
-                           healthy=not plan and not spec.get('faulty') and not isinstance(op.get('dest'), list)))
+                           healthy=not plan and not spec.get('faulty') and not isinstance(op.get('dest'), list), inert=ok_inert, dir=files is not None))
         out.append((i, tr))
     return out
